@@ -14,6 +14,7 @@ mod fam_eval;
 mod fam_ext;
 mod fam_ffi;
 mod fam_format;
+mod fam_formats;
 mod fam_partial;
 mod fam_pset;
 mod fam_robust;
@@ -83,6 +84,7 @@ fn family(name: &str) -> Option<(Runner, Driver)> {
         "ffi" => (fam_ffi::run, fam_ffi::drive),
         "symcc" => (fam_symcc::run, fam_symcc::drive),
         "robust" => (fam_robust::run, fam_robust::drive),
+        "formats" => (fam_formats::run, fam_formats::drive),
         "schemasyn" => (fam_schemasyn::run, fam_schemasyn::drive),
         "entityjson" => (fam_entityjson::run, fam_entityjson::drive),
         _ => return None,
